@@ -89,21 +89,30 @@ class Decoder(Coder):
 
         nbits_decoded = 0
         section_index = 0  # Always start decoding from section 0
-        while True:
-            section = self.section_configurer.configure_section(bufr_message, section_index,
-                                                                configuration_transformers)
-            section_index += 1
-            if section is None:  # when optional section is not present
-                continue
-            nbits_decoded += self.process_section(bufr_message, bit_reader, section)
-            if section.end_of_message:
-                break
+        try:
+            while True:
+                section = self.section_configurer.configure_section(bufr_message, section_index,
+                                                                    configuration_transformers)
+                section_index += 1
+                if section is None:  # when optional section is not present
+                    continue
+                nbits_decoded += self.process_section(bufr_message, bit_reader, section)
+                if section.end_of_message:
+                    break
 
-        # The exact bytes that have been decoded
-        bufr_message.serialized_bytes = s[:nbits_decoded // NBITS_PER_BYTE]
+            # The exact bytes that have been decoded
+            bufr_message.serialized_bytes = s[:nbits_decoded // NBITS_PER_BYTE]
 
-        if not info_only and wire_template_data:
-            bufr_message.wire()
+            if not info_only and wire_template_data:
+                bufr_message.wire()
+
+        except PyBufrKitError:
+            raise
+        except Exception as e:
+            # Damaged input (e.g. a wrong section length or descriptor) can lead
+            # the processing of the template anywhere. Report it as a failure to
+            # decode this message so that callers can skip it.
+            raise PyBufrKitError('Cannot decode message: {}: {}'.format(type(e).__name__, e))
 
         return bufr_message
 
